@@ -84,7 +84,8 @@ def run_case(case):
     res.evals = 1
     eng = None
     with liesel_call(res, "engine run", case):
-        eng, kernels, states = drive(case)
+        # (half of the runs store minimised transition infos; the bookkeeping does not depend on that option)
+        eng, kernels, states = drive(case, minimize=bool(case["idx"] % 2))
         results = eng.get_results()
     if eng is None:
         return res
